@@ -1,0 +1,672 @@
+// Verification contracts (comment-only, compiled only with the "verif" build tag; read by /verif/govc).
+
+//go:build verif
+// +build verif
+
+package rlp
+
+// Contracts for raw.go, encode.go, decode.go — property C14.
+
+// Big-endian value of the n bytes b[o], ..., b[o+n-1] (n in 1..8; 0 otherwise).
+//@ spec func c14BE(b: []byte, o: int, n: int) int =
+//@     if n == 1 then b[o]
+//@     else if n == 2 then b[o]*2^8 + b[o+1]
+//@     else if n == 3 then b[o]*2^16 + b[o+1]*2^8 + b[o+2]
+//@     else if n == 4 then b[o]*2^24 + b[o+1]*2^16 + b[o+2]*2^8 + b[o+3]
+//@     else if n == 5 then b[o]*2^32 + b[o+1]*2^24 + b[o+2]*2^16 + b[o+3]*2^8 + b[o+4]
+//@     else if n == 6 then b[o]*2^40 + b[o+1]*2^32 + b[o+2]*2^24 + b[o+3]*2^16 + b[o+4]*2^8 + b[o+5]
+//@     else if n == 7 then b[o]*2^48 + b[o+1]*2^40 + b[o+2]*2^32 + b[o+3]*2^24 + b[o+4]*2^16 + b[o+5]*2^8 + b[o+6]
+//@     else if n == 8 then b[o]*2^56 + b[o+1]*2^48 + b[o+2]*2^40 + b[o+3]*2^32 + b[o+4]*2^24 + b[o+5]*2^16 + b[o+6]*2^8 + b[o+7]
+//@     else 0
+
+// ---------------------------------------------------------------------------------------------------------------------
+// raw.go: header parsing on byte slices.
+
+// readSize: the size field of a long-form header. Accepted iff present in full, >= 56 and without leading zero byte.
+//@ func readSize props C14
+//@ panics none
+//@ modifies nothing
+//@ ensures [eof] slen > len(b) ==> result0 == 0 && result1 == io.ErrUnexpectedEOF
+//@ ensures [canon-small] slen <= len(b) && c14BE(b, 0, slen) < 56 ==> result0 == 0 && result1 == ErrCanonSize
+//@ ensures [canon-leading-zero] slen <= len(b) && c14BE(b, 0, slen) >= 56 && b[0] == 0 ==> result0 == 0 && result1 == ErrCanonSize
+//@ ensures [value] slen <= len(b) && c14BE(b, 0, slen) >= 56 && b[0] != 0 ==> result0 == c14BE(b, 0, slen) && result1 == nil
+
+// The header grammar, as functions of the leading bytes (Byte = 0, String = 1, List = 2).
+//@ spec func c14Kind(t: int) int = if t < 128 then 0 else if t < 192 then 1 else 2
+//@ spec func c14Long(t: int) bool = (184 <= t && t < 192) || 248 <= t
+//@ spec func c14SizeLen(t: int) int = if 184 <= t && t < 192 then t - 183 else if 248 <= t then t - 247 else 0
+//@ spec func c14TagSize(t: int) int = if t < 128 then 0 else 1 + c14SizeLen(t)
+//@ spec func c14ContentSize(buf: []byte) int =
+//@     if buf[0] < 128 then 1
+//@     else if buf[0] < 184 then buf[0] - 128
+//@     else if buf[0] < 192 then c14BE(buf, 1, buf[0] - 183)
+//@     else if buf[0] < 248 then buf[0] - 192
+//@     else c14BE(buf, 1, buf[0] - 247)
+// Canonical form: a size field is used only for sizes >= 56 and has no leading zero byte; a one-byte string whose
+// byte is < 0x80 is not wrapped in a string header.
+//@ spec func c14Canon(buf: []byte) bool =
+//@     (c14Long(buf[0]) ==> c14ContentSize(buf) >= 56 && buf[1] != 0) &&
+//@     !(buf[0] == 129 && len(buf) > 1 && buf[1] < 128)
+// The header is present in full and the value it announces fits into buf.
+//@ spec func c14Fits(buf: []byte) bool =
+//@     c14TagSize(buf[0]) <= len(buf) && c14ContentSize(buf) <= len(buf) - c14TagSize(buf[0])
+
+//@ func readKind props C14
+//@ panics none
+//@ modifies nothing
+//@ ensures [empty] len(buf) == 0 ==> err == io.ErrUnexpectedEOF
+//@ ensures [accept] len(buf) > 0 && c14Fits(buf) && c14Canon(buf) ==>
+//@     err == nil && k == c14Kind(buf[0]) && tagsize == c14TagSize(buf[0]) && contentsize == c14ContentSize(buf)
+//@ ensures [reject-truncated-header] len(buf) > 0 && c14TagSize(buf[0]) > len(buf) ==> err == io.ErrUnexpectedEOF
+//@ ensures [reject-noncanonical] len(buf) > 0 && c14TagSize(buf[0]) <= len(buf) && !c14Canon(buf) ==> err == ErrCanonSize
+//@ ensures [reject-too-large] len(buf) > 0 && c14TagSize(buf[0]) <= len(buf) && c14Canon(buf) && !c14Fits(buf) ==> err == ErrValueTooLarge
+//@ ensures [zero-on-error] err != nil ==> k == 0 && tagsize == 0 && contentsize == 0
+//@ ensures [bounded] err == nil ==> tagsize + contentsize <= len(buf) && tagsize <= 9 && contentsize >= 0
+//@ ensures [progress] err == nil ==> tagsize + contentsize >= 1
+
+// "buf starts with an accepted header" — exactly the inputs on which readKind returns no error.
+//@ spec func c14Accepts(buf: []byte) bool = len(buf) > 0 && c14Fits(buf) && c14Canon(buf)
+
+// Split: content and rest are the sub-slices of b delimited by the header; nothing beyond len(b) is touched.
+//@ func Split props C14
+//@ panics none
+//@ modifies nothing
+//@ ensures [accept-iff] (err == nil) <==> c14Accepts(b)
+//@ ensures [kind] err == nil ==> k == c14Kind(b[0])
+//@ ensures [content] err == nil ==> base(content) == base(b) && off(content) == off(b) + c14TagSize(b[0]) && len(content) == c14ContentSize(b)
+//@ ensures [rest] err == nil ==> base(rest) == base(b) && off(rest) == off(b) + c14TagSize(b[0]) + c14ContentSize(b) &&
+//@     len(rest) == len(b) - c14TagSize(b[0]) - c14ContentSize(b)
+//@ ensures [consumes] err == nil ==> len(rest) < len(b)
+//@ ensures [on-error] err != nil ==> k == 0 && len(content) == 0 && base(rest) == base(b) && off(rest) == off(b) && len(rest) == len(b)
+
+//@ func SplitString props C14
+//@ panics none
+//@ modifies nothing
+//@ ensures [accept-iff] (err == nil) <==> (c14Accepts(b) && c14Kind(b[0]) != 2)
+//@ ensures [expected-string] c14Accepts(b) && c14Kind(b[0]) == 2 ==> err == ErrExpectedString
+//@ ensures [content] err == nil ==> base(content) == base(b) && off(content) == off(b) + c14TagSize(b[0]) && len(content) == c14ContentSize(b)
+//@ ensures [rest] err == nil ==> base(rest) == base(b) && off(rest) == off(b) + c14TagSize(b[0]) + c14ContentSize(b) &&
+//@     len(rest) == len(b) - c14TagSize(b[0]) - c14ContentSize(b)
+//@ ensures [on-error] err != nil ==> len(content) == 0 && base(rest) == base(b) && off(rest) == off(b) && len(rest) == len(b)
+
+//@ func SplitList props C14
+//@ panics none
+//@ modifies nothing
+//@ ensures [accept-iff] (err == nil) <==> (c14Accepts(b) && c14Kind(b[0]) == 2)
+//@ ensures [expected-list] c14Accepts(b) && c14Kind(b[0]) != 2 ==> err == ErrExpectedList
+//@ ensures [content] err == nil ==> base(content) == base(b) && off(content) == off(b) + c14TagSize(b[0]) && len(content) == c14ContentSize(b)
+//@ ensures [rest] err == nil ==> base(rest) == base(b) && off(rest) == off(b) + c14TagSize(b[0]) + c14ContentSize(b) &&
+//@     len(rest) == len(b) - c14TagSize(b[0]) - c14ContentSize(b)
+//@ ensures [on-error] err != nil ==> len(content) == 0 && base(rest) == base(b) && off(rest) == off(b) && len(rest) == len(b)
+
+// Encoded size of the value at the front of buf (header + content).
+//@ spec func c14Total(buf: []byte) int = c14TagSize(buf[0]) + c14ContentSize(buf)
+
+// CountValues: terminates on every input (each accepted value consumes at least one byte), never reads outside b,
+// counts at most len(b) values; exact for the empty input and for an input holding exactly one value.
+//@ func CountValues props C14
+//@ panics none
+//@ modifies nothing
+//@ loop i invariant [suffix] base(b) == base(old(b)) && off(b) + len(b) == off(old(b)) + len(old(b)) && len(b) <= len(old(b))
+//@ loop i invariant [count] 0 <= i && i + len(b) <= len(old(b))
+//@ loop i invariant [first] i == 0 ==> len(b) == len(old(b))
+//@ loop i invariant [second] i == 1 ==> c14Accepts(old(b)) && len(b) == len(old(b)) - c14Total(old(b))
+//@ loop i invariant [later] i >= 2 ==> c14Accepts(old(b)) && len(b) < len(old(b)) - c14Total(old(b))
+//@ loop i decreases len(b)
+//@ ensures [bound] 0 <= result0 && result0 <= len(b)
+//@ ensures [zero-on-error] result1 != nil ==> result0 == 0
+//@ ensures [empty] len(b) == 0 ==> result0 == 0 && result1 == nil
+//@ ensures [first-rejected] len(b) > 0 && !c14Accepts(b) ==> result1 != nil
+//@ ensures [single] c14Accepts(b) && c14Total(b) == len(b) ==> result0 == 1 && result1 == nil
+//@ ensures [more] c14Accepts(b) && c14Total(b) < len(b) && result1 == nil ==> result0 >= 2
+
+// ---------------------------------------------------------------------------------------------------------------------
+// encode.go: header construction.
+
+// Minimal number of bytes of the big-endian representation of i (1 for i == 0).
+//@ spec func c14IntSize(i: int) int =
+//@     if i < 2^8 then 1 else if i < 2^16 then 2 else if i < 2^24 then 3 else if i < 2^32 then 4
+//@     else if i < 2^40 then 5 else if i < 2^48 then 6 else if i < 2^56 then 7 else 8
+//@ spec func c14HeadSize(size: int) int = if size < 56 then 1 else 1 + c14IntSize(size)
+
+//@ func intsize props C14
+//@ panics none
+//@ modifies nothing
+//@ let i0 = i
+//@ loop size invariant [shifted] (size == 1 && i == i0) || (size == 2 && i == i0 / 2^8) || (size == 3 && i == i0 / 2^16) ||
+//@     (size == 4 && i == i0 / 2^24) || (size == 5 && i == i0 / 2^32) || (size == 6 && i == i0 / 2^40) ||
+//@     (size == 7 && i == i0 / 2^48) || (size == 8 && i == i0 / 2^56)
+//@ loop size invariant [nonzero] size >= 2 ==> i != 0
+//@ loop size decreases 9 - size
+//@ ensures [minimal] size == c14IntSize(i)
+
+// Shifting right by 8k bits is k times shifting by 8 (Euclidean division; valid for every i >= 0). The solvers prove each
+// step at once but do not find the steps by themselves inside a larger goal, so the conjunction is stated where needed.
+//@ spec func c14ShiftSteps(i: int) bool =
+//@     i / 2^16 == (i / 2^8) / 2^8 && i / 2^24 == (i / 2^16) / 2^8 && i / 2^32 == (i / 2^24) / 2^8 && i / 2^40 == (i / 2^32) / 2^8 &&
+//@     i / 2^48 == (i / 2^40) / 2^8 && i / 2^56 == (i / 2^48) / 2^8
+
+// putint: writes exactly c14IntSize(i) bytes, big-endian, no leading zero byte (minimality is c14IntSize), nothing else.
+//@ func putint props C14
+//@ panics none
+//@ requires len(b) >= c14IntSize(i)
+//@ modifies elems(b)
+//@ ensures [size] size == c14IntSize(i)
+//@ ensures [shift-steps] c14ShiftSteps(i)          // a fact about integers, stated first so that [value] can use it
+//@ ensures [value] c14BE(b, 0, size) == i
+//@ ensures [no-leading-zero] i != 0 ==> b[0] != 0
+//@ ensures [frame] forall p: int :: (p < off(b) || p >= off(b) + size) ==> elems(b)[p] == old(elems(b)[p])   // absolute positions in the backing array
+
+//@ func headsize props C14
+//@ panics none
+//@ modifies nothing
+//@ ensures [size] result == c14HeadSize(size)
+
+// What puthead leaves in buf: the short form for sizes < 56, else tag + minimal big-endian size field.
+//@ spec func c14HeadAt(buf: []byte, smalltag: int, largetag: int, size: int) bool =
+//@     if size < 56 then buf[0] == wrap8(smalltag + size)
+//@     else buf[0] == wrap8(largetag + c14IntSize(size)) && c14BE(buf, 1, c14IntSize(size)) == size
+
+//@ func puthead props C14
+//@ panics none
+//@ requires len(buf) >= c14HeadSize(size)
+//@ modifies elems(buf)
+//@ ensures [size] result == c14HeadSize(size)
+//@ ensures [header] c14HeadAt(buf, smalltag, largetag, size)
+//@ ensures [frame] forall p: int :: (p < off(buf) || p >= off(buf) + result) ==> elems(buf)[p] == old(elems(buf)[p])
+
+//@ func ListSize props C14
+//@ panics none
+//@ modifies nothing
+//@ ensures [size] result == wrap64(c14HeadSize(contentSize) + contentSize)
+
+// ---------------------------------------------------------------------------------------------------------------------
+// Lemmas connecting puthead (encoder) and readKind (decoder), over the spec functions above.
+// c14HeadAt is puthead's postcondition; c14Accepts/c14Kind/c14TagSize/c14ContentSize are readKind's.
+
+// Every byte of the first nine of buf is a byte (heap cells are unconstrained integers in a lemma).
+//@ spec func c14Bytes9(buf: []byte) bool =
+//@     0 <= buf[0] && buf[0] <= 255 && 0 <= buf[1] && buf[1] <= 255 && 0 <= buf[2] && buf[2] <= 255 && 0 <= buf[3] && buf[3] <= 255 &&
+//@     0 <= buf[4] && buf[4] <= 255 && 0 <= buf[5] && buf[5] <= 255 && 0 <= buf[6] && buf[6] <= 255 && 0 <= buf[7] && buf[7] <= 255 &&
+//@     0 <= buf[8] && buf[8] <= 255
+
+// decode(encode(size)) == size, string family: whatever puthead(buf, 0x80, 0xB7, size) wrote is read back by readKind as
+// kind String, tag size = headsize(size), content size = size, and is in canonical form (for size == 1 the content byte
+// decides: the encoder uses the header only when that byte is >= 0x80, see encodeString).
+//@ lemma [C14.roundtrip-string-header] forall buf: []byte, size: int ::
+//@     0 <= size && size < 2^64 && c14Bytes9(buf) && c14HeadAt(buf, 128, 183, size) ==>
+//@     c14Kind(buf[0]) == 1 && c14TagSize(buf[0]) == c14HeadSize(size) && c14ContentSize(buf) == size &&
+//@     (size != 1 || buf[1] >= 128 ==> c14Canon(buf))
+// … and list family.
+//@ lemma [C14.roundtrip-list-header] forall buf: []byte, size: int ::
+//@     0 <= size && size < 2^64 && c14Bytes9(buf) && c14HeadAt(buf, 192, 247, size) ==>
+//@     c14Kind(buf[0]) == 2 && c14TagSize(buf[0]) == c14HeadSize(size) && c14ContentSize(buf) == size && c14Canon(buf)
+
+// The first n bytes of a and b are equal (n <= 9).
+//@ spec func c14SamePrefix(a: []byte, b: []byte, n: int) bool =
+//@     (n >= 1 ==> a[0] == b[0]) && (n >= 2 ==> a[1] == b[1]) && (n >= 3 ==> a[2] == b[2]) && (n >= 4 ==> a[3] == b[3]) &&
+//@     (n >= 5 ==> a[4] == b[4]) && (n >= 6 ==> a[5] == b[5]) && (n >= 7 ==> a[6] == b[6]) && (n >= 8 ==> a[7] == b[7]) &&
+//@     (n >= 9 ==> a[8] == b[8])
+
+// Canonical: a header accepted by readKind re-encodes to exactly the accepted bytes — puthead applied to the decoded content
+// size (with the tag family of the decoded kind) produces a header of the same length and the same bytes. Hence no leading
+// zeros, no long form below 56, and one header per (kind family, size).
+//@ lemma [C14.canonical-string-header] forall buf: []byte, out: []byte ::
+//@     c14Bytes9(buf) && c14Bytes9(out) && c14Accepts(buf) && c14Kind(buf[0]) == 1 && c14HeadAt(out, 128, 183, c14ContentSize(buf)) ==>
+//@     c14HeadSize(c14ContentSize(buf)) == c14TagSize(buf[0]) && c14SamePrefix(out, buf, c14TagSize(buf[0]))
+//@ lemma [C14.canonical-list-header] forall buf: []byte, out: []byte ::
+//@     c14Bytes9(buf) && c14Bytes9(out) && c14Accepts(buf) && c14Kind(buf[0]) == 2 && c14HeadAt(out, 192, 247, c14ContentSize(buf)) ==>
+//@     c14HeadSize(c14ContentSize(buf)) == c14TagSize(buf[0]) && c14SamePrefix(out, buf, c14TagSize(buf[0]))
+// One accepted header per size: two accepted inputs of the same kind family and content size start with the same header bytes.
+//@ lemma [C14.unique-header] forall a: []byte, b: []byte ::
+//@     c14Bytes9(a) && c14Bytes9(b) && c14Accepts(a) && c14Accepts(b) && c14Kind(a[0]) != 0 && c14Kind(a[0]) == c14Kind(b[0]) &&
+//@     c14ContentSize(a) == c14ContentSize(b) ==>
+//@     c14TagSize(a[0]) == c14TagSize(b[0]) && c14SamePrefix(a, b, c14TagSize(a[0]))
+
+// ---------------------------------------------------------------------------------------------------------------------
+// decode.go: the Stream.
+
+// Innermost-list accounting is consistent: the bytes consumed so far do not exceed the declared size of the list.
+//@ spec func c14TosOK(s: *Stream) bool =
+//@     len(s.stack) > 0 ==> 0 <= s.stack[len(s.stack)-1].pos && s.stack[len(s.stack)-1].pos <= s.stack[len(s.stack)-1].size && s.stack[len(s.stack)-1].size < 2^64
+//@     // (`0 <=`, `< 2^64`: type range of the uint64 cells; the engine attaches it to Go loads only)
+
+// willRead(n): the only place that accounts for consumed input. It refuses (and consumes nothing from the reader) when n
+// exceeds what is left of the innermost list or of the input limit; pos never exceeds size, remaining never underflows.
+//@ func (*Stream).willRead props C14
+//@ panics none
+//@ requires s != nil && c14TosOK(s)
+//@ let d = len(s.stack)
+//@ let pos0 = s.stack[len(s.stack)-1].pos
+//@ let size0 = s.stack[len(s.stack)-1].size
+//@ modifies s.kind, s.remaining, elems(s.stack)
+//@ ensures [rearm] s.kind == -1
+//@ ensures [stack-same] base(s.stack) == old(base(s.stack)) && off(s.stack) == old(off(s.stack)) && len(s.stack) == d
+//@ ensures [elem-too-large] d > 0 && n > size0 - pos0 ==> result == ErrElemTooLarge && s.stack[d-1].pos == pos0 && s.remaining == old(s.remaining)
+//@ ensures [value-too-large] (d == 0 || n <= size0 - pos0) && s.limited && n > old(s.remaining) ==> result == ErrValueTooLarge && s.remaining == old(s.remaining) &&
+//@     (d > 0 ==> s.stack[d-1].pos == pos0 + n)      // the list position is advanced before the limit check (error path only)
+//@ ensures [ok] (d == 0 || n <= size0 - pos0) && (!s.limited || n <= old(s.remaining)) ==> result == nil
+//@ ensures [pos-advanced] result == nil && d > 0 ==> s.stack[d-1].pos == pos0 + n
+//@ ensures [pos-bounded] c14TosOK(s) && (d > 0 ==> s.stack[d-1].size == size0)
+//@ ensures [remaining] result == nil && s.limited ==> s.remaining == old(s.remaining) - n
+//@ ensures [remaining-unlimited] !s.limited ==> s.remaining == old(s.remaining)
+//@ ensures [outer-frame] forall j: int :: 0 <= j && j < d - 1 ==> s.stack[j].pos == old(s.stack[j].pos) && s.stack[j].size == old(s.stack[j].size)
+//@ ensures [nesting] old(c14StackOK(s)) ==> c14StackOK(s)
+
+// Ghost: number of bytes taken from the underlying reader so far.
+//@ ghost var c14Consumed: int
+
+// The input reader s.r (io.Reader / io.ByteReader): trusted contracts in /verif/specs/stdlib/c14_io.spec.
+
+// readByte: one byte is taken from the reader only after willRead(1) has accounted for it.
+//@ func (*Stream).readByte props C14
+//@ panics none
+//@ requires s != nil && s.r != nil && c14TosOK(s)
+//@ let d = len(s.stack)
+//@ let pos0 = s.stack[len(s.stack)-1].pos
+//@ let size0 = s.stack[len(s.stack)-1].size
+//@ modifies s.kind, s.remaining, elems(s.stack), c14Consumed
+//@ ensures [rearm] s.kind == -1
+//@ ensures [stack-same] base(s.stack) == old(base(s.stack)) && off(s.stack) == old(off(s.stack)) && len(s.stack) == d
+//@ ensures [refused-in-list] d > 0 && pos0 == size0 ==> result1 == ErrElemTooLarge && c14Consumed == old(c14Consumed)
+//@ ensures [refused-at-limit] (d == 0 || pos0 < size0) && s.limited && old(s.remaining) == 0 ==> result1 == ErrValueTooLarge && c14Consumed == old(c14Consumed)
+//@ ensures [accounted] c14Consumed > old(c14Consumed) ==> c14Consumed == old(c14Consumed) + 1 && result1 == nil &&
+//@     (d > 0 ==> s.stack[d-1].pos == pos0 + 1) && (s.limited ==> s.remaining == old(s.remaining) - 1)
+//@ ensures [ok] result1 == nil ==> c14Consumed == old(c14Consumed) + 1
+//@ ensures [eof] result1 != io.EOF
+//@ ensures [monotone] c14Consumed >= old(c14Consumed)
+//@ ensures [pos-bounded] c14TosOK(s) && (d > 0 ==> s.stack[d-1].size == size0 && pos0 <= s.stack[d-1].pos && s.stack[d-1].pos <= pos0 + 1)
+//@ ensures [remaining] s.remaining <= old(s.remaining) && s.remaining >= old(s.remaining) - 1 && (!s.limited ==> s.remaining == old(s.remaining))
+//@ ensures [outer-frame] forall j: int :: 0 <= j && j < d - 1 ==> s.stack[j].pos == old(s.stack[j].pos) && s.stack[j].size == old(s.stack[j].size)
+//@ ensures [nesting] old(c14StackOK(s)) ==> c14StackOK(s)
+
+// readFull: fills buf from the reader only after willRead(len(buf)) has accounted for all of it; never takes more than
+// len(buf) bytes from the reader and writes only inside buf. (Termination depends on the reader making progress: not decided.)
+//@ func (*Stream).readFull props C14
+//@ panics none
+//@ requires s != nil && s.r != nil && c14TosOK(s)
+//@ let d = len(s.stack)
+//@ let pos0 = s.stack[len(s.stack)-1].pos
+//@ let size0 = s.stack[len(s.stack)-1].size
+//@ modifies s.kind, s.remaining, elems(s.stack), elems(buf), c14Consumed
+//@ loop n invariant [range] 0 <= n && n <= len(buf)
+//@ loop n invariant [consumed] c14Consumed == old(c14Consumed) + n
+//@ loop n invariant [inside] forall q: int :: (q < off(buf) || q >= off(buf) + len(buf)) ==> elems(buf)[q] == old(elems(buf)[q])
+//@ loop n invariant [others] forall t: []byte :: base(t) != base(buf) ==> elems(t) == old(elems(t))   // the loop cut havocs every byte array
+//@ ensures [rearm] s.kind == -1
+//@ ensures [stack-same] base(s.stack) == old(base(s.stack)) && off(s.stack) == old(off(s.stack)) && len(s.stack) == d
+//@ ensures [refused-in-list] d > 0 && len(buf) > size0 - pos0 ==> err == ErrElemTooLarge && c14Consumed == old(c14Consumed) &&
+//@     s.stack[d-1].pos == pos0 && s.remaining == old(s.remaining)
+//@ ensures [refused-at-limit] (d == 0 || len(buf) <= size0 - pos0) && s.limited && len(buf) > old(s.remaining) ==>
+//@     err == ErrValueTooLarge && c14Consumed == old(c14Consumed) && s.remaining == old(s.remaining)
+//@ ensures [accounted] c14Consumed > old(c14Consumed) ==> c14Consumed <= old(c14Consumed) + len(buf) &&
+//@     (d > 0 ==> s.stack[d-1].pos == pos0 + len(buf)) && (s.limited ==> s.remaining == old(s.remaining) - len(buf))
+//@ ensures [complete] err == nil ==> c14Consumed == old(c14Consumed) + len(buf) &&
+//@     (d > 0 ==> s.stack[d-1].pos == pos0 + len(buf)) && (s.limited ==> s.remaining == old(s.remaining) - len(buf))
+//@ ensures [eof] err != io.EOF
+//@ ensures [monotone] c14Consumed >= old(c14Consumed)
+//@ ensures [pos-bounded] c14TosOK(s) && (d > 0 ==> s.stack[d-1].size == size0 && s.stack[d-1].pos >= pos0)
+//@ ensures [remaining] s.remaining <= old(s.remaining) && (!s.limited ==> s.remaining == old(s.remaining))
+//@ ensures [inside] forall q: int :: (q < off(buf) || q >= off(buf) + len(buf)) ==> elems(buf)[q] == old(elems(buf)[q])
+//@ ensures [outer-frame] forall j: int :: 0 <= j && j < d - 1 ==> s.stack[j].pos == old(s.stack[j].pos) && s.stack[j].size == old(s.stack[j].size)
+//@ ensures [nesting] old(c14StackOK(s)) ==> c14StackOK(s)
+
+//@ spec func c14Bytes8(buf: []byte) bool =
+//@     0 <= buf[0] && buf[0] <= 255 && 0 <= buf[1] && buf[1] <= 255 && 0 <= buf[2] && buf[2] <= 255 && 0 <= buf[3] && buf[3] <= 255 &&
+//@     0 <= buf[4] && buf[4] <= 255 && 0 <= buf[5] && buf[5] <= 255 && 0 <= buf[6] && buf[6] <= 255 && 0 <= buf[7] && buf[7] <= 255
+
+// The stream has been set up by Reset (NewStream / NewListStream): it has a reader and its 8-byte integer buffer.
+//@ spec func c14Init(s: *Stream) bool = s != nil && s.r != nil && len(s.uintbuf) == 8
+
+// readUint(size): big-endian integer of `size` <= 8 bytes. Canonical-integer rule: for size >= 2 a leading zero byte is
+// rejected, so an accepted value needs exactly `size` bytes (c14IntSize(v) == size).
+//@ func (*Stream).readUint props C14
+//@ panics none
+//@ requires c14Init(s) && c14TosOK(s) && size <= 8
+//@ let d = len(s.stack)
+//@ let pos0 = s.stack[len(s.stack)-1].pos
+//@ let size0 = s.stack[len(s.stack)-1].size
+//@ modifies s.kind, s.remaining, elems(s.stack), elems(s.uintbuf), c14Consumed
+//@ loop i invariant [range] 0 <= i && i <= 8 - size
+//@ loop i invariant [zeroed] forall k: int :: 0 <= k && k < i ==> s.uintbuf[k] == 0
+//@ loop i invariant [others] forall t: []byte :: base(t) != base(s.uintbuf) ==> elems(t) == old(elems(t))
+//@ loop i decreases 8 - size - i
+//@ ensures [rearm] s.kind == -1
+//@ ensures [stack-same] base(s.stack) == old(base(s.stack)) && off(s.stack) == old(off(s.stack)) && len(s.stack) == d
+//@ ensures [empty] size == 0 ==> result0 == 0 && result1 == nil && c14Consumed == old(c14Consumed)
+//@ ensures [value] result1 == nil && size >= 2 ==> result0 == c14BE(s.uintbuf, 8 - size, size)
+//@ ensures [bytes] result1 == nil && size >= 2 ==> c14Bytes8(s.uintbuf)
+//@ ensures [msb] result1 == nil && size >= 2 ==> s.uintbuf[8 - size] != 0
+//@ ensures [canonical] result1 == nil && size >= 2 ==> c14IntSize(result0) == size
+//@ ensures [leading-zero] size >= 2 && c14Consumed == old(c14Consumed) + size && s.uintbuf[8 - size] == 0 ==> result1 != nil
+//@ ensures [one-byte] size == 1 ==> result0 <= 255
+//@ ensures [zero-on-error] result1 != nil && size != 1 ==> result0 == 0
+//@ ensures [accounted] c14Consumed > old(c14Consumed) ==> c14Consumed <= old(c14Consumed) + size &&
+//@     (d > 0 ==> s.stack[d-1].pos == pos0 + size) && (s.limited ==> s.remaining == old(s.remaining) - size)
+//@ ensures [complete] result1 == nil ==> c14Consumed == old(c14Consumed) + size &&
+//@     (d > 0 ==> s.stack[d-1].pos == pos0 + size) && (s.limited ==> s.remaining == old(s.remaining) - size)
+//@ ensures [eof] result1 != io.EOF
+//@ ensures [monotone] c14Consumed >= old(c14Consumed)
+//@ ensures [pos-bounded] c14TosOK(s) && (d > 0 ==> s.stack[d-1].size == size0 && s.stack[d-1].pos >= pos0)
+//@ ensures [remaining] s.remaining <= old(s.remaining) && (!s.limited ==> s.remaining == old(s.remaining))
+//@ ensures [outer-frame] forall j: int :: 0 <= j && j < d - 1 ==> s.stack[j].pos == old(s.stack[j].pos) && s.stack[j].size == old(s.stack[j].size)
+//@ ensures [nesting-0] size == 0 ==> (old(c14StackOK(s)) ==> c14StackOK(s))     // per-path instances first: the exit heap is an ite over the three paths
+//@ ensures [nesting-1] size == 1 ==> (old(c14StackOK(s)) ==> c14StackOK(s))
+//@ ensures [nesting-n] size >= 2 ==> (old(c14StackOK(s)) ==> c14StackOK(s))
+//@ ensures [nesting] old(c14StackOK(s)) ==> c14StackOK(s)
+
+// (*Stream).readKind: reads one header from the reader. Canonical form at the stream level: an accepted String/List header
+// consumed exactly headsize(size) bytes — the length puthead produces for that size — so the long form is never accepted
+// for sizes < 56 and a size field never has a leading zero byte. Every byte consumed was accounted for by willRead.
+//@ func (*Stream).readKind props C14
+//@ panics none
+//@ requires c14Init(s) && c14TosOK(s)
+//@ let d = len(s.stack)
+//@ let pos0 = s.stack[len(s.stack)-1].pos
+//@ let size0 = s.stack[len(s.stack)-1].size
+//@ modifies s.kind, s.remaining, elems(s.stack), elems(s.uintbuf), s.byteval, c14Consumed, c14P
+//@ ghost after call (*Stream).readByte: c14P := 1
+//@ ghost after store byteval#1: c14P := 2
+//@ ghost after store byteval#2: c14P := 3
+//@ ghost after call (*Stream).readUint#1: c14P := 4
+//@ ghost after call (*Stream).readUint#2: c14P := 5
+//@ ensures [stack-same] base(s.stack) == old(base(s.stack)) && off(s.stack) == old(off(s.stack)) && len(s.stack) == d
+//@ ensures [kind-range] 0 <= kind && kind <= 2
+//@ ensures [byte] err == nil && kind == Byte ==> size == 0 && s.byteval < 128 && c14Consumed == old(c14Consumed) + 1
+//@ ensures [canonical-length] err == nil && kind != Byte ==> c14Consumed == old(c14Consumed) + c14HeadSize(size) && s.byteval == 0
+//@ ensures [at-most-9] c14Consumed <= old(c14Consumed) + 9 && c14Consumed >= old(c14Consumed)
+//@ ensures [accounted] err == nil ==> (d > 0 ==> s.stack[d-1].pos == pos0 + (c14Consumed - old(c14Consumed))) &&
+//@     (s.limited ==> s.remaining == old(s.remaining) - (c14Consumed - old(c14Consumed)))
+//@ ensures [toplevel-eof] d == 0 && c14Consumed == old(c14Consumed) ==> err != nil && err != io.ErrUnexpectedEOF && err != ErrValueTooLarge
+//@ ensures [pos-bounded] c14TosOK(s) && (d > 0 ==> s.stack[d-1].size == size0 && s.stack[d-1].pos >= pos0)
+//@ ensures [remaining] s.remaining <= old(s.remaining) && (!s.limited ==> s.remaining == old(s.remaining))
+//@ ensures [outer-frame] forall j: int :: 0 <= j && j < d - 1 ==> s.stack[j].pos == old(s.stack[j].pos) && s.stack[j].size == old(s.stack[j].size)
+//@ ensures [nesting-1] c14P == 1 ==> (old(c14StackOK(s)) ==> c14StackOK(s))
+//@ ensures [nesting-2] c14P == 2 ==> (old(c14StackOK(s)) ==> c14StackOK(s))
+//@ ensures [nesting-3] c14P == 3 ==> (old(c14StackOK(s)) ==> c14StackOK(s))
+//@ ensures [nesting-4] c14P == 4 ==> (old(c14StackOK(s)) ==> c14StackOK(s))
+//@ ensures [nesting-5] c14P == 5 ==> (old(c14StackOK(s)) ==> c14StackOK(s))
+//@ ensures [paths] 1 <= c14P && c14P <= 5
+//@ ensures [nesting] old(c14StackOK(s)) ==> c14StackOK(s)
+
+// Stream invariant. c14Cached: a header that Kind has read and cached without error has passed the size checks — it fits
+// into what is left of the innermost list, or (top level, limited input) into the remaining input; a Byte has size 0.
+//@ spec func c14Cached(s: *Stream) bool =
+//@     s.kind >= -1 && s.kind <= 2 &&
+//@     (s.kind >= 0 && s.kinderr == nil ==>
+//@         (s.kind == 0 ==> s.size == 0 && s.byteval < 128) &&
+//@         (len(s.stack) > 0 ==> s.size <= s.stack[len(s.stack)-1].size - s.stack[len(s.stack)-1].pos) &&
+//@         (len(s.stack) == 0 && s.limited ==> s.size <= s.remaining))
+//@ spec func c14Inv(s: *Stream) bool = c14Init(s) && c14TosOK(s) && c14Cached(s)
+
+// Kind: the size it reports without error is bounded by the enclosing list / the input limit ("never allocates far beyond
+// the input": Bytes and Raw allocate `size` bytes only after this check). At the end of a list: EOL, nothing is read.
+//@ func (*Stream).Kind props C14
+//@ panics none
+//@ requires c14Inv(s)
+//@ let d = len(s.stack)
+//@ let pos0 = s.stack[len(s.stack)-1].pos
+//@ let size0 = s.stack[len(s.stack)-1].size
+//@ modifies s.kind, s.size, s.kinderr, s.remaining, elems(s.stack), elems(s.uintbuf), s.byteval, c14Consumed, c14P
+//@ ghost after entry: c14P := 0
+//@ ghost after store kinderr#1: c14P := 6
+//@ ghost after call (*Stream).readKind: c14P := 7
+//@ ensures [inv] c14Inv(s)
+//@ ensures [stack-same] base(s.stack) == old(base(s.stack)) && off(s.stack) == old(off(s.stack)) && len(s.stack) == d
+//@ ensures [cached] old(s.kind) >= 0 ==> kind == old(s.kind) && size == old(s.size) && err == old(s.kinderr) &&
+//@     c14Consumed == old(c14Consumed) && s.remaining == old(s.remaining) && (d > 0 ==> s.stack[d-1].pos == pos0) && s.kind == old(s.kind)
+//@ ensures [eol] old(s.kind) < 0 && d > 0 && pos0 == size0 ==> err == EOL && kind == 0 && size == 0
+//@ ensures [eol-nothing-read] old(s.kind) < 0 && d > 0 && pos0 == size0 ==>
+//@     c14Consumed == old(c14Consumed) && s.remaining == old(s.remaining) && s.stack[d-1].pos == pos0
+//@ ensures [armed] err == nil ==> kind == s.kind && size == s.size && s.kinderr == nil && 0 <= kind && kind <= 2
+//@ ensures [size-in-list] err == nil && d > 0 ==> size <= s.stack[d-1].size - s.stack[d-1].pos
+//@ ensures [size-in-input] err == nil && d == 0 && s.limited ==> size <= s.remaining
+//@ ensures [byte] err == nil && kind == Byte ==> size == 0 && s.byteval < 128
+//@ ensures [canonical-length] err == nil && kind != Byte && old(s.kind) < 0 ==> c14Consumed == old(c14Consumed) + c14HeadSize(size)
+//@ ensures [at-most-9] c14Consumed <= old(c14Consumed) + 9 && c14Consumed >= old(c14Consumed)
+//@ ensures [accounted] err == nil ==> (d > 0 ==> s.stack[d-1].pos == pos0 + (c14Consumed - old(c14Consumed))) &&
+//@     (s.limited ==> s.remaining == old(s.remaining) - (c14Consumed - old(c14Consumed)))
+//@ ensures [pos-bounded] d > 0 ==> s.stack[d-1].size == size0 && s.stack[d-1].pos >= pos0
+//@ ensures [remaining] s.remaining <= old(s.remaining) && (!s.limited ==> s.remaining == old(s.remaining))
+//@ ensures [outer-frame] forall j: int :: 0 <= j && j < d - 1 ==> s.stack[j].pos == old(s.stack[j].pos) && s.stack[j].size == old(s.stack[j].size)
+//@ ensures [nesting-cached] c14P == 0 ==> (old(c14StackOK(s)) ==> c14StackOK(s))
+//@ ensures [nesting-eol] c14P == 6 ==> (old(c14StackOK(s)) ==> c14StackOK(s))
+//@ ensures [nesting-read] c14P == 7 ==> (old(c14StackOK(s)) ==> c14StackOK(s))
+//@ ensures [paths] c14P == 0 || c14P == 6 || c14P == 7
+//@ ensures [nesting] old(c14StackOK(s)) ==> c14StackOK(s)
+
+// Ghost constant: the input limit the stream was set up with (Reset's inputLimit / the length of the byte slice).
+//@ ghost var c14Limit: int
+
+// Nesting invariant: an open inner list fits into what its enclosing list had left when it was opened, so that closing it
+// (ListEnd adds its size to the enclosing position) cannot push that position beyond the enclosing size. On a limited
+// stream neither the remaining-input counter nor the declared size of any open list exceeds the input limit.
+//@ spec func c14StackOK(s: *Stream) bool =
+//@     (forall k: int :: 0 <= k && k < len(s.stack) - 1 ==> s.stack[k].pos + s.stack[k+1].size <= s.stack[k].size && s.stack[k].size < 2^64) &&
+//@     (s.limited ==> s.remaining <= c14Limit && (forall k: int :: 0 <= k && k < len(s.stack) ==> s.stack[k].size <= c14Limit))
+//@     // (`< 2^64`: type range of the uint64 cell, which the engine does not attach to reads inside quantifiers)
+//@ spec func c14Full(s: *Stream) bool = c14Inv(s) && c14StackOK(s)
+
+// ListEnd: only at the declared end of the innermost list; the enclosing list's position advances by the inner size and
+// stays within the enclosing size.
+//@ func (*Stream).ListEnd props C14
+//@ panics none
+//@ requires c14Full(s)
+//@ let d = len(s.stack)
+//@ let pos0 = s.stack[len(s.stack)-1].pos
+//@ let size0 = s.stack[len(s.stack)-1].size
+//@ let opos = s.stack[len(s.stack)-2].pos
+//@ modifies s.stack, s.kind, s.size, elems(s.stack)
+//@ ensures [not-in-list] d == 0 ==> result == errNotInList
+//@ ensures [not-at-eol] d > 0 && pos0 != size0 ==> result == errNotAtEOL
+//@ ensures [ok] d > 0 && pos0 == size0 ==> result == nil
+//@ ensures [unchanged-on-error] result != nil ==> len(s.stack) == d && s.kind == old(s.kind) && s.size == old(s.size) && (d > 0 ==> s.stack[d-1].pos == pos0)
+//@ ensures [popped] result == nil ==> len(s.stack) == d - 1 && base(s.stack) == old(base(s.stack)) && off(s.stack) == old(off(s.stack)) && s.kind == -1 && s.size == 0
+//@ ensures [outer-advanced] result == nil && d >= 2 ==> s.stack[d-2].pos == opos + size0
+//@ ensures [outer-size] result == nil && d >= 2 ==> s.stack[d-2].size == old(s.stack[len(s.stack)-2].size)
+//@ ensures [inv] c14Full(s)
+
+// List: opens a list only if the header is a List header whose size fits the enclosing list / the input limit.
+//@ func (*Stream).List props C14
+//@ panics none
+//@ requires c14Full(s)
+//@ let d = len(s.stack)
+//@ let pos0 = s.stack[len(s.stack)-1].pos
+//@ let size0 = s.stack[len(s.stack)-1].size
+//@ modifies s.stack, s.kind, s.size, s.kinderr, s.remaining, elems(s.stack), elems(s.uintbuf), s.byteval, c14Consumed, c14P
+//@ ensures [zero-on-error] err != nil ==> size == 0 && len(s.stack) == d
+//@ ensures [pushed] err == nil ==> len(s.stack) == d + 1 && s.stack[d].pos == 0 && s.stack[d].size == size && s.kind == -1 && s.size == 0
+//@ ensures [fits-list] err == nil && d > 0 ==> s.stack[d-1].pos + size <= s.stack[d-1].size && s.stack[d-1].size == size0 && s.stack[d-1].pos >= pos0
+//@ ensures [fits-input] err == nil && d == 0 && s.limited ==> size <= s.remaining
+//@ ensures [at-most-9] c14Consumed <= old(c14Consumed) + 9 && c14Consumed >= old(c14Consumed)
+//@ ensures [remaining] s.remaining <= old(s.remaining) && (!s.limited ==> s.remaining == old(s.remaining))
+//@ ensures [inv] c14Inv(s)
+//@ ensures [nesting-on-error] err != nil ==> c14StackOK(s)
+//@ ensures [nesting] err == nil ==> c14StackOK(s)
+
+// Ghost: kind and size of the header that the value-reading methods below obtained from Kind.
+//@ ghost var c14K: int
+//@ ghost var c14Sz: int
+// Ghost path marker: which state-changing step a method executed last (1 = Kind, 2 = the read after it, 3 = the explicit rearm).
+// The exit heap of a method is an ite over its paths; clauses of the form `c14P == k ==> …` are proved on one path each and
+// make the unconditional clause that follows them propositional (engine_requests/C14.md item 15).
+//@ ghost var c14P: int
+
+// uint(maxbits): canonical-integer rule. An accepted integer v was encoded exactly as writeUint encodes it:
+// 0 as the empty string, 1..127 as a single byte, v >= 128 as a string of exactly c14IntSize(v) bytes (no leading zero),
+// and it fits the requested width.
+//@ func (*Stream).uint props C14
+//@ panics none
+//@ requires c14Full(s) && 0 <= maxbits && maxbits <= 64
+//@ let d = len(s.stack)
+//@ modifies s.kind, s.size, s.kinderr, s.remaining, elems(s.stack), elems(s.uintbuf), s.byteval, c14Consumed, c14K, c14Sz, c14P
+//@ ghost after call (*Stream).Kind: c14K := ret0
+//@ ghost after call (*Stream).Kind: c14Sz := ret1
+//@ ghost after call (*Stream).Kind: c14P := 1
+//@ ghost after call (*Stream).readUint: c14P := 2
+//@ ghost after store kind: c14P := 3
+//@ ensures [canonical-byte] result1 == nil && c14K == 0 ==> 1 <= result0 && result0 < 128
+//@ ensures [canonical-zero] result1 == nil && c14K == 1 && c14Sz == 0 ==> result0 == 0
+//@ ensures [canonical-string] result1 == nil && c14K == 1 && c14Sz >= 1 ==> result0 >= 128 && c14IntSize(result0) == c14Sz
+//@ ensures [expected-string] result1 == nil ==> c14K == 0 || c14K == 1
+//@ ensures [width] result1 == nil ==> c14Sz <= maxbits / 8 &&
+//@     (maxbits == 8 ==> result0 < 2^8) && (maxbits == 16 ==> result0 < 2^16) && (maxbits == 32 ==> result0 < 2^32)
+//@ ensures [zero-on-error] result1 != nil ==> result0 == 0
+//@ ensures [rearm] result1 == nil ==> s.kind == -1
+//@ ensures [stack-same] base(s.stack) == old(base(s.stack)) && off(s.stack) == old(off(s.stack)) && len(s.stack) == d
+//@ ensures [at-most-17] c14Consumed <= old(c14Consumed) + 17 && c14Consumed >= old(c14Consumed)
+//@ ensures [remaining] s.remaining <= old(s.remaining) && (!s.limited ==> s.remaining == old(s.remaining))
+//@ ensures [inv-after-kind] c14P == 1 ==> c14Full(s)
+//@ ensures [inv-after-read] c14P == 2 ==> c14Full(s)
+//@ ensures [inv-after-rearm] c14P == 3 ==> c14Full(s)
+//@ ensures [paths] c14P == 1 || c14P == 2 || c14P == 3
+//@ ensures [inv] c14Full(s)
+
+// Bytes: allocation is bounded — the buffer handed to readFull has the size Kind reported, which is at most what is left
+// of the enclosing list, at most the remaining input at top level of a limited stream, and on a limited stream never more
+// than the input limit. A one-byte string whose byte is < 0x80 is rejected (canonical).
+//@ func (*Stream).Bytes props C14
+//@ panics none
+//@ requires c14Full(s)
+//@ requires s.limited && c14Limit < 2^63          // an unlimited stream allocates whatever the header announces (documented in Decode)
+//@ let d = len(s.stack)
+//@ modifies s.kind, s.size, s.kinderr, s.remaining, elems(s.stack), elems(s.uintbuf), s.byteval, c14Consumed, c14K, c14Sz, c14P
+//@ ghost after call (*Stream).Kind: c14K := ret0
+//@ ghost after call (*Stream).Kind: c14Sz := ret1
+//@ ghost after call (*Stream).Kind: c14P := 1
+//@ ghost after call (*Stream).readFull: c14P := 2
+//@ ghost after store kind: c14P := 3
+//@ assert before call (*Stream).readFull: [alloc-is-size] len(a1) == c14Sz
+//@ assert before call (*Stream).readFull: [alloc-in-list] len(s.stack) > 0 ==> len(a1) <= s.stack[len(s.stack)-1].size - s.stack[len(s.stack)-1].pos
+//@ assert before call (*Stream).readFull: [alloc-in-input] len(s.stack) == 0 ==> len(a1) <= s.remaining
+//@ assert before call (*Stream).readFull: [alloc-within-limit] len(a1) <= c14Limit
+//@ ensures [byte] result1 == nil && c14K == 0 ==> len(result0) == 1 && result0[0] < 128
+//@ ensures [string] result1 == nil && c14K == 1 ==> len(result0) == c14Sz && len(result0) <= c14Limit
+//@ ensures [canonical-one-byte] result1 == nil && c14K == 1 && c14Sz == 1 ==> result0[0] >= 128
+//@ ensures [expected-string] result1 == nil ==> c14K == 0 || c14K == 1
+//@ ensures [nil-on-error] result1 != nil ==> len(result0) == 0
+//@ ensures [rearm] result1 == nil ==> s.kind == -1
+//@ ensures [stack-same] base(s.stack) == old(base(s.stack)) && off(s.stack) == old(off(s.stack)) && len(s.stack) == d
+//@ ensures [consumed] c14Consumed >= old(c14Consumed) && (result1 == nil && c14K == 1 ==> c14Consumed >= old(c14Consumed) + c14Sz)
+//@ ensures [remaining] s.remaining <= old(s.remaining)
+//@ ensures [inv-path-1] c14P == 1 ==> c14Full(s)
+//@ ensures [inv-path-2] c14P == 2 ==> c14Full(s)
+//@ ensures [inv-path-3] c14P == 3 ==> c14Full(s)
+//@ ensures [paths] 1 <= c14P && c14P <= 3
+//@ ensures [inv] c14Full(s)
+
+// Raw: returns the value with a freshly built header. The header is puthead's for the size Kind reported, i.e. (lemmas
+// C14.roundtrip-*-header) the canonical header that readKind decodes to the same kind and size; the buffer is
+// headsize(size) + size bytes, within the input limit (+ 9 header bytes); puthead writes only the header bytes
+// (its result equals `start`, so the content read by readFull is not overwritten).
+//@ func (*Stream).Raw props C14
+//@ panics none
+//@ requires c14Full(s)
+//@ requires s.limited && c14Limit < 2^62
+//@ let d = len(s.stack)
+//@ modifies s.kind, s.size, s.kinderr, s.remaining, elems(s.stack), elems(s.uintbuf), s.byteval, c14Consumed, c14K, c14Sz, c14P
+//@ ghost after call (*Stream).Kind: c14K := ret0
+//@ ghost after call (*Stream).Kind: c14Sz := ret1
+//@ ghost after call (*Stream).Kind: c14P := 1
+//@ ghost after call (*Stream).readFull: c14P := 2
+//@ ghost after store kind: c14P := 3
+//@ ghost after call puthead: c14P := 4
+//@ assert before call (*Stream).readFull: [alloc-is-size] len(a1) == c14Sz
+//@ assert before call (*Stream).readFull: [alloc-in-list] len(s.stack) > 0 ==> len(a1) <= s.stack[len(s.stack)-1].size - s.stack[len(s.stack)-1].pos
+//@ assert before call (*Stream).readFull: [alloc-in-input] len(s.stack) == 0 ==> len(a1) <= s.remaining
+//@ assert before call (*Stream).readFull: [alloc-within-limit] len(a1) <= c14Limit
+//@ assert after call puthead#1: [header-only] ret == c14HeadSize(c14Sz)
+//@ assert after call puthead#2: [header-only-list] ret == c14HeadSize(c14Sz)
+//@ ensures [byte] result1 == nil && c14K == 0 ==> len(result0) == 1 && result0[0] < 128
+//@ ensures [length] result1 == nil && c14K != 0 ==> len(result0) == c14HeadSize(c14Sz) + c14Sz
+//@ ensures [string-header] result1 == nil && c14K == 1 ==> c14HeadAt(result0, 128, 183, c14Sz)
+//@ ensures [list-header] result1 == nil && c14K == 2 ==> c14HeadAt(result0, 192, 247, c14Sz)
+//@ ensures [nil-on-error] result1 != nil ==> len(result0) == 0
+//@ ensures [rearm] result1 == nil ==> s.kind == -1
+//@ ensures [stack-same] base(s.stack) == old(base(s.stack)) && off(s.stack) == old(off(s.stack)) && len(s.stack) == d
+//@ ensures [consumed] c14Consumed >= old(c14Consumed) && (result1 == nil && c14K != 0 ==> c14Consumed >= old(c14Consumed) + c14Sz)
+//@ ensures [remaining] s.remaining <= old(s.remaining)
+//@ ensures [inv-path-1] c14P == 1 ==> c14Full(s)
+//@ ensures [inv-path-2] c14P == 2 ==> c14Full(s)
+//@ ensures [inv-path-3] c14P == 3 ==> c14Full(s)
+//@ ensures [inv-path-4] c14P == 4 ==> c14Full(s)
+//@ ensures [paths] 1 <= c14P && c14P <= 4
+//@ ensures [inv] c14Full(s)
+
+// wrapStreamError maps stream errors to decode errors; it never turns an error into success or vice versa.
+//@ func wrapStreamError props C14
+//@ panics none
+//@ modifies nothing
+//@ ensures [error-stays-error] (result == nil) <==> (err == nil)
+
+// reflect accessors used by decodeBigInt: no effect on the modelled state (the decoded-into Go value is outside it).
+//@ effectfree (reflect.Value).Type (reflect.Value).Interface (reflect.Value).Set reflect.ValueOf
+
+// decodeBigInt: canonical-integer rule for big integers — the bytes handed to SetBytes never start with a zero byte;
+// input with a leading zero byte is rejected. (The unchecked type assertion val.Interface().(*big.Int) is justified by the
+// dispatch in makeDecoder, which is not under contract: no `panics none` here.)
+//@ func decodeBigInt props C14
+//@ requires c14Full(s) && s.limited && c14Limit < 2^63
+//@ modifies s.kind, s.size, s.kinderr, s.remaining, elems(s.stack), elems(s.uintbuf), s.byteval, c14Consumed, c14K, c14Sz, all(big), c14P
+//@ assert before call (*math/big.Int).SetBytes: [no-leading-zero] len(a1) == 0 || a1[0] != 0
+//@ assert before call (*math/big.Int).SetBytes: [receiver] a0 != nil
+//@ ensures [inv] c14Full(s)
+
+// ---------------------------------------------------------------------------------------------------------------------
+// encode.go: the string writers of the encoder buffer (what EncodeRLP implementations and the reflective writers emit).
+
+//@ spec func c14EncBuf(w: *encbuf) bool = w != nil && len(w.sizebuf) == 9 && base(w.sizebuf) != base(w.str)
+
+// encodeStringHeader appends exactly puthead's string header for `size`, and keeps what was already written.
+//@ func (*encbuf).encodeStringHeader props C14
+//@ panics none
+//@ requires c14EncBuf(w) && 0 <= size
+//@ let n0 = len(w.str)
+//@ modifies w.str, elems(w.str), elems(w.sizebuf)
+//@ ensures [length] len(w.str) == n0 + c14HeadSize(size)
+//@ ensures [header] c14HeadAt(w.str[n0:], 128, 183, size)
+//@ ensures [prefix] forall j: int :: 0 <= j && j < n0 ==> w.str[j] == old(w.str[j])
+//@ ensures [encbuf] c14EncBuf(w)
+//@ ensures [base] base(w.str) == old(base(w.str)) || fresh(w.str)
+
+// encodeString: a single byte < 0x80 is its own encoding (never wrapped); everything else is header + content.
+// Together with readKind's rule (0x81 followed by a byte < 0x80 is rejected) each byte string has one encoding.
+//@ func (*encbuf).encodeString props C14
+//@ panics none
+//@ requires c14EncBuf(w) && base(b) != base(w.str) && base(b) != base(w.sizebuf)
+//@ let n0 = len(w.str)
+//@ let hs = c14HeadSize(len(b))
+//@ modifies w.str, elems(w.str), elems(w.sizebuf)
+//@ ensures [header-long] len(b) >= 56 ==> w.str[n0] == 183 + c14IntSize(len(b)) && c14BE(w.str, n0 + 1, c14IntSize(len(b))) == len(b)
+//@ ensures [single-byte] len(b) == 1 && b[0] < 128 ==> len(w.str) == n0 + 1 && w.str[n0] == b[0]
+//@ ensures [length] !(len(b) == 1 && b[0] < 128) ==> len(w.str) == n0 + hs + len(b)
+//@ ensures [header-short] !(len(b) == 1 && b[0] < 128) && len(b) < 56 ==> w.str[n0] == 128 + len(b)
+//@ ensures [content] !(len(b) == 1 && b[0] < 128) ==> forall j: int :: 0 <= j && j < len(b) ==> w.str[n0 + hs + j] == old(b[j])
+//@ ensures [prefix] forall j: int :: 0 <= j && j < n0 ==> w.str[j] == old(w.str[j])
+//@ ensures [encbuf] c14EncBuf(w)
+//@ ensures [base] base(w.str) == old(base(w.str)) || fresh(w.str)
+
+// (*Stream).Decode: the reflective walker is out of reach; at call sites (hand-written DecodeRLP methods) its effect is
+// "anything": the whole heap is havocked, so the carrier struct holds arbitrary decoded values. Nothing is claimed about it.
+//@ func (*Stream).Decode props C14
+//@ modifies all, c14Consumed, c14K, c14Sz, c14P
+
+// Reset (NewStream, NewListStream): establishes the stream invariant; with an explicit input limit the stream is limited to it.
+//@ effectfree (*bytes.Reader).Len (*strings.Reader).Len bufio.NewReader
+//@ func (*Stream).Reset props C14
+//@ panics none
+//@ requires s != nil && (isnil(s.uintbuf) || len(s.uintbuf) == 8)
+//@ modifies s.remaining, s.limited, s.r, s.stack, s.size, s.kind, s.kinderr, s.uintbuf
+//@ ensures [limit] inputLimit > 0 ==> s.limited && s.remaining == inputLimit
+//@ ensures [fresh-state] len(s.stack) == 0 && s.kind == -1 && s.size == 0 && s.kinderr == nil && len(s.uintbuf) == 8
+//@ ensures [reader] s.r != nil
+//@ ensures [establishes-invariant] inputLimit > 0 && c14Limit == inputLimit ==> c14Full(s)
+//@ ensures [establishes-invariant-auto] inputLimit == 0 && s.limited && c14Limit == s.remaining ==> c14Full(s)   // *bytes.Reader / *strings.Reader: limit = its length
+
+//@ func NewStream props C14
+//@ panics none
+//@ modifies nothing
+//@ ensures [fresh] result != nil && fresh(result)
+//@ ensures [limited] inputLimit > 0 ==> result.limited && result.remaining == inputLimit
+//@ ensures [invariant] inputLimit > 0 && c14Limit == inputLimit ==> c14Full(result)
+//@ ensures [invariant-auto] inputLimit == 0 && result.limited && c14Limit == result.remaining ==> c14Full(result)
